@@ -35,9 +35,9 @@ CHECKS = {
         "invalid, foreign request, foreign group, 1-byte signature, nil content, other content}, submitter late / peers "
         "staggered; judge: exactly one report, by the derived submitter, passing the contract equation on the REAL EVM "
         "precompiles under the group key and the submitter's address, to the right contract call.",
-   note=TB + "partial: 'can reach the submitter' and the deadlines are runtime; the node-level composition (non-submitters "
-        "never reach the recovery path, the submitter's own share is forwarded before registration) is exercised by the system "
-        "runs, not proved; unforgeability (t valid shares on a content imply an honest member signed it) is the hypothesis "
+   note=TB + "partial: 'can reach the submitter' and the deadlines are runtime; the composition of collector and stage at the submitter is proved "
+        "(C01_node_*), taking from the code that the own share is forwarded to the stage before the request is registered; that "
+        "non-submitters never reach the recovery path is exercised by the system runs, not proved; unforgeability (t valid shares on a content imply an honest member signed it) is the hypothesis "
         "that links the stage theorem to 'the honest content'.",
    technique="Coq proof (induction over the arrival list, composition of C02/C03/C07 lemmas) + stage-level differential "
              "correspondence + multi-node system runs judged by the EVM precompiles",
@@ -419,7 +419,7 @@ EXTRA_TEXT = {
  "C10": "Group elements as values: a clone keeps its value when the original is updated in place (Add, Neg, Mul) and vice versa, and the identity stays the identity after points obtained from Null() were used as accumulators - in G1, G2 and GT.",
  "C05": "Scenarios added: crafted commitments (constant term = sum_{k>=1} c_k x^k at a victim's abscissa, with the true share or the share 0), two colluding dealers dealing from one polynomial, a valid threshold with commitments of a constant polynomial.",
  "C04": "Liveness (Proofs/DkgLive.v): for any group of n >= 2 honest members, any threshold 2 <= t <= n, any polynomials, member i's session - the deals of all other members in ANY order, then k's approval of j's deal for all dealers j and responders k other than i and j in ANY order - finishes with a key share (C04_everything_delivered_finishes, by an invariant over the verifier table: every recorded deal is the dealer's, every response list has one approval per responder seen so far; C04_liveness_premises_hold instantiates the premises). A schedule in which the first attempt to send a public key is lost the way the real transport loses a request (Request's own 5 s deadline, wrapped) judges liveness: nobody can finish before the retry delivers it.",
- "C01": "The stage-level runs also judge liveness: valid shares of a threshold of distinct members among the junk must yield a report.",
+ "C01": "Node level (Proofs/NodeCompose.v): the collector model of C13 feeding this stage - own share first, then whatever the collector hands to the request: the node's outcome depends only on the arrivals for the request id in order, not on when the registration fell or on other requests (C01_node_outcome_order_independent); its reports satisfy the contract equation (C01_node_reports_valid); once own share + arrivals hold valid shares of t distinct members it reports (C01_node_live). The stage-level runs also judge liveness: valid shares of a threshold of distinct members among the junk must yield a report.",
  "C02": "Groups of 65..72 and 257..266 members are included, with a high-index member's share repeated under other encodings (trailing byte, coordinate + p) at random positions. Every Recover / Verify / Sign case is evaluated again at the end of the run - once more in sequence, then in waves of 12 goroutines - and must give what it gave the first time (no hidden state between calls); a valid share is verified, the caller's message buffer is changed in place and changed back, and the verdicts must be accept, reject, accept.",
  "C03": "Groups of 65..72 members with t-1 signers and a high-index share repeated under other encodings are included. The cases are evaluated again in sequence and concurrently (same results), and the buffer-reuse sequence accept / reject / accept is judged.",
  "C06": "The same key is also handed to Verify as differently built objects (parsed, negation of a parsed point, negated in place, a sum, a negated Jacobian multiple, the negated generator) with nothing normalising it before the call, and the identity key (zero multiple, Null(), parsed) with the identity and another signature is compared with the EVM on the four-zero-word encoding. Sign and Verify cases are evaluated again in sequence and concurrently from 12 goroutines and must give the same results.",
